@@ -54,6 +54,14 @@ pub fn model_case(sel: &str, ctx: &mut crate::ctx::Ctx, tape: &[u8]) {
                 }
             }
             "C09" => c09::write_side(ctx, idx),
+            "C10" => {
+                if r.chance(2, 3) {
+                    let code = *r.pick(&crate::refdns::TYPED_CODES);
+                    c10::tuple_case(ctx, code, idx)
+                } else {
+                    c10::rejection_case(ctx, idx)
+                }
+            }
             "C13" => c13::u1_case(ctx, idx),
             "C15" => c15::history(ctx, idx),
             _ => {}
@@ -68,7 +76,7 @@ pub fn model_case(sel: &str, ctx: &mut crate::ctx::Ctx, tape: &[u8]) {
 pub fn tools_for(id: &str) -> (bool, Option<&'static str>, bool) {
     match id {
         "C01" => (true, Some("parse"), false),
-        "C02" | "C03" | "C04" | "C07" | "C09" | "C15" => (false, Some("model"), false),
+        "C02" | "C03" | "C04" | "C07" | "C09" | "C10" | "C15" => (false, Some("model"), false),
         "C05" => (false, Some("framing"), false),
         "C06" => (true, None, false),
         "C11" => (false, Some("reserialise"), false),
